@@ -2581,6 +2581,8 @@ class L4Object(object):
             high_port = int(ports.get(port_tmp[1], port_tmp[1]))
             if low_port > high_port:
                 raise RequirementFailure()
+            if not (1 <= low_port and high_port <= 65535):
+                raise RequirementFailure()
             self.port_list = sorted(range(low_port, high_port + 1))
         elif "lt " in port_spec.strip():
             port_tmp = re.split(r"\s+", port_spec)[-1]
